@@ -71,6 +71,7 @@ class Ctx:
         self.sqrt_terms = {}
         self.sum_tags = {}
         self.stub_mode = 0
+        self.crossexec = False  # proxy-vs-native cross execution: concrete arguments are computed numerically
         self.lemma_obligations = {}
         self.ghost = {}
         self._leaf_seen = {}
@@ -1046,6 +1047,8 @@ def power(a, b):
 def spec_pow(a, b):
     """General real power as an uninterpreted function with on-demand facts."""
     c = ctx()
+    if c.crossexec and _is_const(a) and _is_const(b):
+        return float(a) ** float(b)
     f = uf("pow", 2)
     x, y = to_z3(a, "real"), to_z3(b, "real")
     r = f(x, y)
@@ -1060,6 +1063,8 @@ def spec_pow(a, b):
 
 def spec_log(a):
     c = ctx()
+    if c.crossexec and _is_const(_numeric(a)):
+        return math.log(a) if a > 0 else float("-inf")
     x = to_z3(_numeric(a), "real")
     if _is_const(a):
         if a <= 0:
@@ -1075,6 +1080,8 @@ def spec_log(a):
 def spec_sqrt(a):
     c = ctx()
     a = _numeric(a)
+    if c.crossexec and _is_const(a):
+        return math.sqrt(a) if a >= 0 else float("nan")
     if _is_const(a):
         r = math.isqrt(int(a)) if isinstance(a, int) and a >= 0 else None
         if r is not None and r * r == a:
@@ -1121,8 +1128,15 @@ def sqdist(p, q, define=False):
     return SymNum(r, "real")
 
 
+_NUMERIC_FNS = {"sin": math.sin, "cos": math.cos, "hypot": math.hypot, "arctan2": math.atan2}
+
+
 def spec_fn(name, *args, facts=None):
     """Generic uninterpreted real function application."""
+    if name in _NUMERIC_FNS and all(_is_const(_numeric(a)) for a in args):
+        c = Ctx.current
+        if c is not None and c.crossexec:
+            return _NUMERIC_FNS[name](*[float(a) for a in args])
     f = uf(name, len(args))
     r = f(*[to_z3(_numeric(a), "real") for a in args])
     return SymNum(r, "real")
